@@ -410,7 +410,7 @@ func Explore(ld *Loaded, cfg *Config) *RunResult {
 		sort.Strings(hs.Labels)
 		rr.Harness = append(rr.Harness, hs)
 
-		work := [][]Decision{{}}
+		work := []workItem{{}}
 		active := 0
 		cond := sync.NewCond(&mu)
 		stop := false
@@ -442,7 +442,8 @@ func Explore(ld *Loaded, cfg *Config) *RunResult {
 						mu.Unlock()
 						break
 					}
-					prefix := work[len(work)-1]
+					prefix := work[len(work)-1].prefix()
+					work[len(work)-1] = workItem{}
 					work = work[:len(work)-1]
 					active++
 					doSample := samples < cfg.SampleCap
